@@ -28,17 +28,54 @@ class SC__visit_expr(Contract):
             'proved only for _visit_var/_mark_use)')
 
 
-class SC__visit_block(Contract):
-    target = 'fpy2.analysis.syntax_check:SyntaxCheckInstance._visit_block'
-    params = {'self': 'SyntaxCheckInstance', 'block': 'Key[StmtBlock]', 'ctx': '_Ctx'}
+class SC__visit_statement(Contract):
+    target = 'fpy2.analysis.syntax_check:SyntaxCheckInstance._visit_statement'
+    params = {'self': 'SyntaxCheckInstance',
+              'stmt': 'Assign | IndexedAssign | If1Stmt | IfStmt | WhileStmt | ForStmt | ContextStmt | AssertStmt | EffectStmt | ReturnStmt | PassStmt',
+              'ctx': '_Ctx'}
+    overrides = {'stmt.target': 'Key[NamedId] | UnderscoreId | Key[TupleBinding]', 'stmt.expr': 'Key[Expr]',
+                 'stmt.cond': 'Key[Expr]', 'stmt.body': 'Key[StmtBlock]', 'stmt.ift': 'Key[StmtBlock]',
+                 'stmt.iff': 'Key[StmtBlock]', 'stmt.iterable': 'Key[Expr]', 'stmt.ctx': 'Key[Expr]',
+                 'stmt.test': 'Key[Expr]', 'stmt.msg': 'Key[Expr] | None', 'stmt.var': 'Key[NamedId]',
+                 'stmt.indices': 'KeySeq[Expr]'}
+    split = ['stmt']
     returns = '_Env'
     properties = ['C15']
-    trusted = True
     modifies = ['self.free_var_args']
     may_raise = ['FPySyntaxError']
-    note = ('ASSUMED: SyntaxCheckInstance._visit_block(block, ctx) returns R with [[R]] ⊆ DAblock(block, [[ctx.env]]), '
-            'DAblock(b, V) = TOP if term_block(b) else V ∪ gen_block(b); gen_block, term_block are uninterpreted '
-            '(the fold of the per-statement rules over block.stmts is not verified)')
+    note = ('verified per statement class: the dynamic dispatch of ast/visitor.py (type(stmt).__mro__, _stmt_dispatch) '
+            'reaches the rule of the class, and that rule\'s contract gives [[R]] ⊆ DA(stmt, [[ctx.env]]) with '
+            'gen_stmt/term_stmt = the rule set of spec/c15.py by cases on the class')
+
+    def post(self, stmt, ctx, result):
+        return {
+            'live': implies(live(ctx) and not term_stmt(stmt), not result.terminated),
+            'da': implies(live(ctx) and not result.terminated,
+                          forall_keys('NamedId', lambda k: implies(bound(result, k), in_da_stmt(stmt, ctx.env, k)))),
+        }
+
+
+class SC__visit_block(Contract):
+    target = 'fpy2.analysis.syntax_check:SyntaxCheckInstance._visit_block'
+    params = {'self': 'SyntaxCheckInstance', 'block': 'StmtBlock', 'ctx': '_Ctx'}
+    overrides = {'block.stmts': 'KeySeq[Stmt]'}
+    returns = '_Env'
+    properties = ['C15']
+    modifies = ['self.free_var_args']
+    may_raise = ['FPySyntaxError']
+    options = {'loop_modifies': {0: ['self.free_var_args']}}
+    note = ('verified: the loop over block.stmts (symbolic length) with invariant inv0 over the processed prefix; '
+            'axioms = the DEFINITION of gen_block/term_block as the fold of gen_stmt/term_stmt (spec.c15.block_fold_def)')
+
+    def axioms(self, block):
+        return block_fold_def(block)
+
+    def inv0(self, block, ctx, env, done):
+        return {
+            'live': implies(live(ctx) and not term_prefix(block, done), not env.terminated),
+            'da': implies(live(ctx) and not env.terminated,
+                          forall_keys('NamedId', lambda k: implies(bound(env, k), in_da_prefix(block, done, ctx.env, k)))),
+        }
 
     def post(self, block, ctx, result):
         return {
@@ -185,7 +222,7 @@ class SC__visit_indexed_assign(Contract):
 
     def post(self, stmt, ctx, result):
         return {
-            'same': same_obj(result, ctx.env),
+            'same': same_env(result, ctx.env),
             'var_checked': bound(ctx.env, stmt.var),       # xs[i] = e uses xs
         }
 
@@ -200,7 +237,7 @@ class SC__visit_assert(Contract):
     may_raise = ['FPySyntaxError']
 
     def post(self, stmt, ctx, result):
-        return {'same': same_obj(result, ctx.env)}
+        return {'same': same_env(result, ctx.env)}
 
 
 class SC__visit_effect(Contract):
@@ -214,7 +251,7 @@ class SC__visit_effect(Contract):
     options = {'call_counts': {'SyntaxCheckInstance._visit_expr': 1}}
 
     def post(self, stmt, ctx, result):
-        return {'same': same_obj(result, ctx.env)}
+        return {'same': same_env(result, ctx.env)}
 
 
 class SC__visit_return(Contract):
@@ -239,7 +276,7 @@ class SC__visit_pass(Contract):
     properties = ['C15']
 
     def post(self, stmt, ctx, result):
-        return {'same': same_obj(result, ctx.env)}
+        return {'same': same_env(result, ctx.env)}
 
     def raises(self, stmt, ctx):
         return {}
